@@ -624,7 +624,8 @@ def storeInsert (fuel : Nat) (here : Path) (ins : Val) : FM Report := do
   let prs := procPaths rootP processes
   let sts := procPaths rootP steps
   let tps ← lift (topLevelPaths rootP topology)
-  let fls ← lift (topLevelPaths rootP ((KV.lookup "flow" kvs).getD (.dict [])))
+  -- `dict_to_paths(root, insertion.get('flow') or {})` (path by path, as `divide` does: fix 61e1f38)
+  let fls := procPaths rootP (if flow.truthy then flow else .dict [])
   applySubschemaPath fuel here rel
   let tgt ← getPath here rel
   modify tgt (fun n => .ok (applyDefaults n))
